@@ -149,10 +149,13 @@ type pikeProc struct {
 	mu      sync.Mutex
 }
 
+// pikeExtraEnv environment of the pike processes started next (e.g. GOMAXPROCS=1: a one-CPU machine)
+var pikeExtraEnv []string
+
 func startPike(bin, file string) (*pikeProc, error) {
 	p := &pikeProc{}
 	p.cmd = exec.Command(bin, "--config", file)
-	p.cmd.Env = append(os.Environ(), "GO_ENV=dev")
+	p.cmd.Env = append(append(os.Environ(), "GO_ENV=dev"), pikeExtraEnv...)
 	out, err := p.cmd.StdoutPipe()
 	if err != nil {
 		return nil, err
